@@ -78,3 +78,23 @@ def javadoc(text, release=False):
 def lookup(files, fid, line, col, release=False):
     with Project(files) as d:
         return run(['lookup', d, fid, line, col], release)
+
+
+def generated_parser():
+    """Path of OUT_DIR/aidl.rs (lalrpop output for the current src/aidl.lalrpop), from a build of the replay crate."""
+    crate = os.path.join(VERIF, 'replay')
+    rc, so, se = sh('cargo build --offline --message-format=json', cwd=crate, env={'CARGO_TARGET_DIR': os.path.join(CACHE, 'target-replay')}, check=False)
+    if rc != 0:
+        raise RuntimeError('build failed:\n' + se[-3000:])
+    out = None
+    for line in so.splitlines():
+        try:
+            m = json.loads(line)
+        except ValueError:
+            continue
+        if m.get('reason') == 'build-script-executed' and 'aidl-parser' in m.get('package_id', ''):
+            out = m.get('out_dir')
+    if not out or not os.path.exists(os.path.join(out, 'aidl.rs')):
+        raise RuntimeError('cannot locate OUT_DIR/aidl.rs')
+    _built['debug'] = os.path.join(CACHE, 'target-replay', 'debug', 'vreplay')
+    return os.path.join(out, 'aidl.rs')
